@@ -302,11 +302,14 @@ namespace {
         static size_t capacity( int n, Case const& c )
         {
             size_t cap = size_t( cfg_at( c, 1, 2 ));
-            // a bounded pool that runs dry makes pool_monitor::lock() throw std::bad_alloc while it
-            // owns the node's spin bit (by design: "the pool can contain up to N items"), so the
-            // bounded pool is never smaller than the number of nodes
-            if ( Bounded && cap < size_t( n ))
-                cap = size_t( n );
+            // A bounded pool that runs dry makes pool_monitor::lock() throw std::bad_alloc while it
+            // owns the node's spin bit (by design: "the pool can contain up to N items"). unlock()
+            // gives the lock back to the pool only AFTER it has detached it from the node and released
+            // the spin bit, so a lock in flight back to the pool is unavailable to a thread that
+            // re-locks the node meanwhile: the bounded pool must hold one lock per node plus one per
+            // thread that may be in the tail of unlock().
+            if ( Bounded && cap < size_t( n ) + c.prog.size())
+                cap = size_t( n ) + c.prog.size();
             return cap < 2 ? 2 : cap;
         }
         PoolMon( int n, Case const& c, Oracle& o ) : N( n ), orc( o ), mon( capacity( n, c )), nodes( new node_t[size_t( n )] ), held_ptr( size_t( n ), nullptr ) {}
@@ -634,8 +637,6 @@ namespace {
             note_class( "nested" );
         if ( st.preemptions )
             note_class( "preempted" );
-        if ( st.blocked )
-            note_class( "blocked_on_mutex" );
         return finish( st, o.hh, o.contended > 0 && st.preemptions > 0 );
     }
 
